@@ -24,4 +24,6 @@ package p2p
 //@   requires rw != nil && rw.dec != nil && rw.ingressMAC != nil && rw.macCipher != nil && rw.conn != nil
 //@   allocbound[C17] $n <= 16777216
 //@   ensures[C17] @sizelimit err == nil && rw.snappy ==> msg.Size <= 16777215
+//@   ensures[C17] @macs err == nil ==> macchecks == old(macchecks) + 2 && macfails == old(macfails)
+//@   ensures[C17] @decafter err == nil ==> dec_after == old(macchecks) + 2
 //@   nopanic[C17]
